@@ -44,7 +44,7 @@ where
         let n = 4 + rng.below(4) as u32; // 4..7 variables
         let workers = [2u32, 4, 8, 16][rng.below(4)];
         let app_threads = 2 + rng.below(3); // 2..4
-        let ops_per_thread = if thorough { 60 } else { 40 };
+        let ops_per_thread = if thorough { 150 } else { 90 };
         let cache = [1usize, 16, 1024][rng.below(3)];
         let mut s: Session<F> = Session::new(&mut out, 1 << 16, cache, workers);
         s.mref
@@ -81,7 +81,11 @@ where
                             let live: Vec<usize> =
                                 (0..t.slots.len()).filter(|&i| t.slots[i].is_some()).collect();
                             let k = 3;
-                            let ids: Vec<usize> = (0..k).map(|_| live[trng.below(live.len())]).collect();
+                            // mostly a small hot set, so that identical operations repeat
+                            let hot = live.len().min(6);
+                            let ids: Vec<usize> = (0..k)
+                                .map(|_| if trng.chance(2, 3) { live[trng.below(hot)] } else { live[trng.below(live.len())] })
+                                .collect();
                             for &i in &ids {
                                 t.inuse[i] += 1;
                             }
@@ -154,12 +158,26 @@ where
                                         ev["tt"] = tt;
                                         ev["g"] = g;
                                         ev["nc"] = json!(nc);
+                                        // a third of the results is dropped at once: the
+                                        // node dies and can only be revived through the
+                                        // unique table or the apply cache
+                                        let transient = trng.chance(1, 3);
                                         let mut t = table.lock().unwrap();
-                                        t.slots.push(Some(f));
-                                        t.inuse.push(0);
-                                        ev["h"] = json!(t.slots.len() - 1);
+                                        let h = t.slots.len();
+                                        ev["h"] = json!(h);
                                         let st = stamp.fetch_add(1, SeqCst);
                                         evs.push((st, ev));
+                                        if transient {
+                                            t.slots.push(None);
+                                            t.inuse.push(0);
+                                            let st = stamp.fetch_add(1, SeqCst);
+                                            evs.push((st, json!({"ev":"drop","a":h,"thr":tid})));
+                                            drop(t);
+                                            drop(f);
+                                        } else {
+                                            t.slots.push(Some(f));
+                                            t.inuse.push(0);
+                                        }
                                     }
                                     Ok(Err(_)) => {
                                         ev["res"] = json!({"oom": true});
